@@ -2,6 +2,7 @@
 SPEC = {
     "bins": [
         {"name": "c20", "pkg": "./zz_verif/c20", "run": ".", "shards": {"quick": 4, "thorough": 16}},
+        {"name": "c20fuzz", "pkg": "./zz_verif/c20", "fuzz": "FuzzC20PolicyFromString", "fuzztime": "45s", "tiers": ["thorough"], "shards": {"thorough": 1}},
         {"name": "c20wb", "pkg": "./abe/cpabe/tkn20/internal/tkn", "run": "^TestC20", "whitebox": True, "shards": {"quick": 1, "thorough": 4}},
     ],
     "rule": "predicates: case = (generated formula with <= 6 leaves / depth <= 4 over labels {a,b,c,d} x values {0,1,2}, one random textual form, "
